@@ -47,6 +47,8 @@ var slots = []struct{ name, tmpl string }{
 	{"call argument", "package p\n\ntempl c(s string) {\n\t<i>{ s }</i>\n}\n\ntempl T(x string) {\n\t@c(%E)\n}\n"},
 	{"call with children", "package p\n\ntempl c(s string) {\n\t<i>{ children... }</i>\n}\n\ntempl T(x string) {\n\t@c(%E) {\n\t\t<b>%P{ %E }</b>\n\t}\n}\n"},
 	{"raw go", "package p\n\ntempl T(x string) {\n\t{{ v := %E }}\n\t<b>{ v }</b>\n}\n"},
+	{"raw go starting on the next line", "package p\n\ntempl T(x string) {\n\t{{\n\t\tv := %E\n\t\tw := v\n\t}}\n\t<b>{ w }</b>\n}\n"},
+	{"raw go after a tab and blank lines", "package p\n\ntempl T(x string) {\n\t{{\t v := %E }}\n\t{{\n\n\n\t\tw := v }}\n\t<b>%P{ w }</b>\n}\n"},
 	{"script element", "package p\n\ntempl T(x string) {\n\t<script>var a = {{ %E }}; var b = \"%P{{ %E }}\";</script>\n}\n"},
 	{"script element attribute", "package p\n\ntempl T(x string) {\n\t<script data-p=\"%P\" nonce={ %E }>var a = 1;</script>\n}\n"},
 	{"script element class attribute", "package p\n\ntempl T(x string) {\n\t<script data-p=\"%P\" class={ %E }>var a = 1;</script>\n}\n"},
